@@ -276,6 +276,8 @@ class Expr:
         kind = self.shape_of(src) if src else None
         if kind is None:
             kind = self.shape_of('.' + attr)
+        if kind is None:
+            kind = getattr(self, 'obj_attr_kinds', {}).get((str(recv.term), attr))
         out = self.mkval(term, kind)
         if self.spec_mode or attr in self.TOTAL_ATTRS or self.attr_total(recv, attr, src):
             return [(out, st)]
@@ -513,6 +515,16 @@ class Expr:
                 return [(VBool(z3.Exists([j], z3.And(j >= 0, j < th.vlen(cont.term), z3.Select(th.sq_arr(cont.term), j) == k))), st)]
             if kind in (None, 'str'):
                 return [(VBool(th.seq_contains(cont.term, k)), st)]
+        if isinstance(cont, VIter):
+            if cont.static is not None:
+                return self.contains(item, VTuple(tuple(cont.static)), st, node)
+            j = th.fresh('j', th.I)
+            s0 = State(dict(st.env), [])
+            ev = self.toVal(cont.at(j, s0), s0)
+            keep = cont.keep(j, s0) if cont.keep is not None else z3.BoolVal(True)
+            if s0.pc:
+                st.add(z3.ForAll([j], z3.Implies(z3.And(j >= 0, j < cont.n), z3.And(s0.pc))))
+            return [(VBool(z3.Exists([j], z3.And(j >= 0, j < cont.n, keep, ev == k))), st)]
         raise OutOfSubset(f'membership in {type(cont).__name__}', node)
 
     def hash_guard(self, k, ok_result, st, origin, item_sv=None):
